@@ -36,9 +36,16 @@ def apply(spec):
     while lines and lines[0].lstrip().startswith("@"):
         lines.pop(0)
     ns = {}
-    code = compile("\n".join(lines), f.__code__.co_filename, "exec")
+    body = "\n".join(lines)
+    owner = f.__qualname__.split(".")[-2] if "." in f.__qualname__ and "<locals>" not in f.__qualname__ else None
+    if owner is not None:
+        # compile inside a class of the same name so that private names (self.__x) are mangled as in the original
+        body = f"class {owner}:\n" + textwrap.indent(body, "    ")
+    code = compile(body, f.__code__.co_filename, "exec")
     exec(code, f.__globals__, ns)
-    newf = ns[f.__name__]
+    newf = ns[owner].__dict__[f.__name__] if owner is not None else ns[f.__name__]
+    if isinstance(newf, (staticmethod, classmethod)):
+        newf = newf.__func__
     if newf.__code__.co_freevars != f.__code__.co_freevars:
         raise RuntimeError(f"mutant {spec.get('name')}: free variables differ (closure / super())")
     f.__code__ = newf.__code__
